@@ -108,6 +108,30 @@ void history_shape(History const& h, RunResult& out)
 }
 
 //---------------------------------------------------------------------------//
+bool history_made_progress(History const& h, std::size_t window)
+{
+    auto const& fr = h.frames;
+    if (fr.size() <= window + 1)
+        return true;
+    Frame const& f1 = fr.back();
+    Frame const& f0 = fr[fr.size() - 1 - window];
+    auto const& a = f0.obs[2];
+    auto const& b = f1.obs[2];
+    if (a.size() != b.size() || f0.end_counters.initializers != f1.end_counters.initializers)
+        return true;
+    for (std::size_t sl = 0; sl < b.size(); ++sl)
+    {
+        if (a[sl].active() != b[sl].active())
+            return true;
+        if (b[sl].active()
+            && (a[sl].track != b[sl].track || a[sl].event != b[sl].event
+                || a[sl].energy != b[sl].energy || a[sl].time != b[sl].time
+                || std::memcmp(a[sl].pos, b[sl].pos, sizeof(a[sl].pos)) != 0))
+            return true;
+    }
+    return false;
+}
+
 void check_history(History const& h, Problem const& prob, OracleOpts const& opts, RunResult& out)
 {
     auto two_mc2 = [&](std::uint32_t pid) -> double {
@@ -720,29 +744,7 @@ void check_history(History const& h, Problem const& prob, OracleOpts const& opts
         // budget is a violation only if the last window shows no progress at
         // all: the same tracks in the same slots with the same position,
         // energy and time, and the same number of queued initializers.
-        auto const& fr = h.frames;
-        bool progress = true;
-        if (fr.size() > 2001)
-        {
-            Frame const& f1 = fr.back();
-            Frame const& f0 = fr[fr.size() - 2001];
-            progress = false;
-            auto const& a = f0.obs[2];
-            auto const& b = f1.obs[2];
-            if (a.size() != b.size()
-                || f0.end_counters.initializers != f1.end_counters.initializers)
-                progress = true;
-            for (std::size_t sl = 0; !progress && sl < b.size(); ++sl)
-            {
-                if (a[sl].active() != b[sl].active())
-                    progress = true;
-                else if (b[sl].active()
-                         && (a[sl].track != b[sl].track || a[sl].event != b[sl].event
-                             || a[sl].energy != b[sl].energy || a[sl].time != b[sl].time
-                             || std::memcmp(a[sl].pos, b[sl].pos, sizeof(a[sl].pos)) != 0))
-                    progress = true;
-            }
-        }
+        bool progress = history_made_progress(h);
         if (!progress)
             out.violate("C02",
                         "no-termination",
